@@ -14,16 +14,19 @@ func init() { register("C05", LoadTyped, checkC05) }
 const parsePkg = "pkg/parse"
 
 type importClosure struct {
-	RL        *types.Named
-	mapFld    string
-	muFld     string
-	keyType   types.Type
-	elemType  *types.Named // fileInfo
-	collector *ssa.Function
-	canon     *ssa.Function
-	users     []*ssa.Function // other functions touching RL.map
-	claimer   *ssa.Function   // function holding the test-and-insert: the collector or a helper it calls
-	claimCall *ssa.Call       // the collector's call of the helper (nil when the collector claims itself)
+	RL         *types.Named
+	mapFld     string
+	muFld      string
+	keyType    types.Type
+	elemType   *types.Named // fileInfo
+	collector  *ssa.Function
+	canon      *ssa.Function
+	users      []*ssa.Function     // other functions touching RL.map
+	claimer    *ssa.Function       // function holding the test-and-insert: the collector or a helper it calls
+	claimCall  *ssa.Call           // the collector's call of the helper (nil when the collector claims itself)
+	readCall   ssa.CallInstruction // the collector's read of the file: ReadHashBranch or the helper that forwards to it
+	readHelper *ssa.Function
+	accessors  map[*ssa.Function]bool // methods of the table that look one entry up under the mutex and return it
 }
 
 func findImportClosure(c *Check) *importClosure {
@@ -53,9 +56,14 @@ func findImportClosure(c *Check) *importClosure {
 		for i := 0; i < st.NumFields(); i++ {
 			f := st.Field(i)
 			if m, ok := f.Type().Underlying().(*types.Map); ok {
-				mf = f.Name()
-				kt = m.Key()
-				et = namedOf(m.Elem())
+				// the file table is the map keyed by a key type of this package; other
+				// maps kept next to it (caches, counters) do not change its role
+				_, elemIsPtr := m.Elem().Underlying().(*types.Pointer)
+				if kn := namedOf(m.Key()); kn != nil && kn.Obj().Pkg() == pk.Types && isStringType(m.Key()) && elemIsPtr {
+					mf = f.Name()
+					kt = m.Key()
+					et = namedOf(m.Elem())
+				}
 			}
 			if typeIs(f.Type(), "sync", "Mutex") || typeIs(f.Type(), "sync", "RWMutex") {
 				uf = f.Name()
@@ -75,14 +83,67 @@ func findImportClosure(c *Check) *importClosure {
 		if fnPkgPath(f) != pk.PkgPath {
 			continue
 		}
-		eachCall(f, func(cl ssa.CallInstruction) {
-			if cl.Common().IsInvoke() && cl.Common().Method.Name() == "ReadHashBranch" {
-				ic.collector = f
-			}
-		})
 		if f.Parent() == nil && f.Signature.Results().Len() == 1 && types.Identical(f.Signature.Results().At(0).Type(), ic.keyType) {
 			ic.canon = f
 		}
+	}
+	// The collector: the function that reads a file through the reader
+	// (ReadHashBranch, directly or through a small helper that only forwards the
+	// call) and comes back to itself for the file's imports. Without recursion
+	// (a work-list collector) the function that performs the read is taken.
+	invokesRead := func(f *ssa.Function) ssa.CallInstruction {
+		var at ssa.CallInstruction
+		eachCall(f, func(cl ssa.CallInstruction) {
+			if cl.Common().IsInvoke() && cl.Common().Method.Name() == "ReadHashBranch" {
+				at = cl
+			}
+		})
+		return at
+	}
+	var direct []*ssa.Function
+	for _, f := range p.RepoFuncs() {
+		if fnPkgPath(f) == pk.PkgPath && invokesRead(f) != nil {
+			direct = append(direct, f)
+		}
+	}
+	for _, f := range p.RepoFuncs() {
+		if fnPkgPath(f) != pk.PkgPath || f.Parent() != nil || strings.HasSuffix(p.fnFile(f), "_test.go") {
+			continue
+		}
+		// does f come back to itself?
+		recursive := false
+		for g := range repoReach(p, f) {
+			eachCall(g, func(cl ssa.CallInstruction) {
+				if normFn(p, cl.Common().StaticCallee()) == f {
+					recursive = true
+				}
+			})
+		}
+		if !recursive {
+			continue
+		}
+		if at := invokesRead(f); at != nil {
+			ic.collector, ic.readCall = f, at
+			break
+		}
+		eachCall(f, func(cl ssa.CallInstruction) {
+			h := normFn(p, cl.Common().StaticCallee())
+			if h == nil || h == f || ic.collector != nil {
+				return
+			}
+			for _, d := range direct {
+				if d == h && len(h.Blocks) <= 6 {
+					ic.collector, ic.readCall, ic.readHelper = f, cl, h
+				}
+			}
+		})
+		if ic.collector != nil {
+			break
+		}
+	}
+	if ic.collector == nil && len(direct) > 0 {
+		ic.collector = direct[len(direct)-1]
+		ic.readCall = invokesRead(ic.collector)
 	}
 	// The claim (membership test + insertion into the shared file table) is made
 	// by the collector itself or by a helper it calls (a method of the table).
@@ -99,11 +160,40 @@ func findImportClosure(c *Check) *importClosure {
 		})
 	}
 	for _, f := range p.RepoFuncs() {
-		if f == ic.collector || f == ic.claimer || fnPkgPath(f) != pk.PkgPath {
+		if f == ic.collector || f == ic.claimer || f == ic.readHelper || fnPkgPath(f) != pk.PkgPath {
 			continue
 		}
 		if len(ic.mapAccesses(f)) > 0 {
 			ic.users = append(ic.users, f)
+		}
+	}
+	// locked accessors of the table are not users themselves: the functions that
+	// call them are (their look-ups go through the accessor)
+	ic.accessors = map[*ssa.Function]bool{}
+	var rest []*ssa.Function
+	for _, u := range ic.users {
+		if ic.isLockedAccessor(u) {
+			ic.accessors[u] = true
+		} else {
+			rest = append(rest, u)
+		}
+	}
+	ic.users = rest
+	if len(ic.accessors) > 0 {
+		have := map[*ssa.Function]bool{}
+		for _, u := range ic.users {
+			have[u] = true
+		}
+		for _, f := range p.RepoFuncs() {
+			if f == ic.collector || f == ic.claimer || f == ic.readHelper || ic.accessors[f] || have[f] || fnPkgPath(f) != pk.PkgPath {
+				continue
+			}
+			if f.Parent() != nil && (f.Parent() == ic.collector) {
+				continue
+			}
+			if len(ic.mapAccesses(f)) > 0 {
+				ic.users = append(ic.users, f)
+			}
 		}
 	}
 	return ic
@@ -148,9 +238,33 @@ func (ic *importClosure) mapAccesses(f *ssa.Function) []ssa.Instruction {
 					}
 				}
 			}
+			if sc := x.Call.StaticCallee(); sc != nil && ic.accessors[sc] {
+				out = append(out, i) // a keyed look-up made through the table's locked accessor
+			}
 		}
 	})
 	return out
+}
+
+// isLockedAccessor: a method of the table type whose only access to the map is
+// a look-up keyed by its parameter, made while it holds the mutex itself.
+func (ic *importClosure) isLockedAccessor(f *ssa.Function) bool {
+	if f.Parent() != nil || f.Signature.Recv() == nil || namedOf(f.Signature.Recv().Type()) != ic.RL {
+		return false
+	}
+	acc := ic.mapAccesses(f)
+	if len(acc) != 1 {
+		return false
+	}
+	lk, ok := acc[0].(*ssa.Lookup)
+	if !ok {
+		return false
+	}
+	if _, isParam := unspill(lk.Index).(*ssa.Parameter); !isParam {
+		return false
+	}
+	hs := mustHold(f, func(i ssa.Instruction) bool { return ic.isMutexCall(i, "Lock") }, func(i ssa.Instruction) bool { return ic.isMutexCall(i, "Unlock") })
+	return hs.At(lk)
 }
 
 func (ic *importClosure) isMutexCall(i ssa.Instruction, name string) bool {
@@ -211,6 +325,17 @@ func checkC05(c *Check) {
 	}
 	c.Counts["collector_blocking_resources"] = blockingResources(c, "RESOURCE-PAIR", "HELD-ACROSS-NESTING", colSet)
 
+	// a look-up-or-compute table on the import path must be keyed by everything
+	// the remembered value depends on (the importing file's directory included)
+	parseFns := map[*ssa.Function]bool{}
+	for _, f := range p.RepoFuncs() {
+		if fnPkgPath(f) == p.Pkg(parsePkg).PkgPath && !isListenerCode(p, f) {
+			parseFns[f] = true
+		}
+	}
+	nMemo := memoKeys(c, "MEMO-KEY", parseFns)
+	c.Counts["memo_tables"] = nMemo
+	c.Okf("MEMO-KEY", "scan", "-", "%d functions of pkg/parse scanned for look-up-or-compute tables: %d found and evaluated", len(parseFns), nMemo)
 	c05Settings(c)
 	arrivalOrder(c, "ARRIVAL-ORDER")
 	importsInTextOrder(c, "IMPORTS-IN-TEXT-ORDER")
@@ -259,12 +384,11 @@ func collectorSharing(c *Check, ic *importClosure) {
 	p := c.P
 	col := ic.collector
 	// locate read, claim, lookup
-	var read ssa.CallInstruction
-	eachCall(col, func(cl ssa.CallInstruction) {
-		if cl.Common().IsInvoke() && cl.Common().Method.Name() == "ReadHashBranch" {
-			read = cl
-		}
-	})
+	read := ic.readCall
+	if read == nil {
+		c.Undecidedf("CLAIM-BEFORE-READ", fnName(col), p.pos(col.Pos()), "the collector's read of the file was not found: unresolved anchor")
+		return
+	}
 	claimer, claimCall := ic.claimer, ic.claimCall
 	if claimer != col {
 		c.Notes = append(c.Notes, "the claim is made by the helper "+fnName(claimer)+" called from the collector")
@@ -289,7 +413,14 @@ func collectorSharing(c *Check, ic *importClosure) {
 		if claimCall != nil {
 			claimSite = claimCall
 		}
-		c.Cond(instrDominates(claimSite, read), "CLAIM-BEFORE-READ", ck+"|claim dominates ReadHashBranch", p.pos(claimSite.Pos()),
+		claimFirst := instrDominates(claimSite, read)
+		if !claimFirst {
+			// no feasible path reaches the read without passing the claim (the
+			// look-up that precedes a put-if-absent leaves a path in the graph that
+			// the value of its found flag rules out)
+			claimFirst = !feasibleReach(col, nil, nil, func(i ssa.Instruction) bool { return i == read.(ssa.Instruction) }, func(i ssa.Instruction) bool { return i == claimSite })
+		}
+		c.Cond(claimFirst, "CLAIM-BEFORE-READ", ck+"|claim dominates ReadHashBranch", p.pos(claimSite.Pos()),
 			"the insertion into the retrieved map dominates the read of the file",
 			"the file is read before (or without) being claimed in the retrieved map: two goroutines can both fetch it, and a cycle no longer terminates")
 		// lookup and claim in one critical section
@@ -329,6 +460,10 @@ func collectorSharing(c *Check, ic *importClosure) {
 	for _, f := range lockScope {
 		hs := mustHold(f, lockOn, lockOff)
 		for _, a := range ic.mapAccesses(f) {
+			if cl, ok := a.(*ssa.Call); ok && cl.Call.StaticCallee() != nil && ic.accessors[cl.Call.StaticCallee()] {
+				c.Okf("LOCKED-ACCESS", fmt.Sprintf("%s|%T", fnName(f), a), p.pos(a.Pos()), "the look-up goes through %s, which takes the mutex itself", fnName(cl.Call.StaticCallee()))
+				continue
+			}
 			c.Cond(hs.At(a), "LOCKED-ACCESS", fmt.Sprintf("%s|%T", fnName(f), a), p.pos(a.Pos()),
 				"access to the shared retrieved map is inside a must-locked region",
 				"the shared retrieved map is accessed on a goroutine without holding its mutex on every path")
@@ -493,6 +628,25 @@ func c05Flatten(c *Check, ic *importClosure) {
 		if u.Parent() != nil {
 			continue
 		}
+		// a plain accessor of the table (look one entry up and return it) builds no
+		// list: it is judged by the lock rules, not by the flatten rules
+		buildsList := false
+		eachInstr(u, func(b *ssa.BasicBlock, i ssa.Instruction) {
+			if cl, ok := i.(*ssa.Call); ok {
+				if bi, ok := cl.Call.Value.(*ssa.Builtin); ok && bi.Name() == "append" {
+					buildsList = true
+				}
+				if staticCallee(cl) == u {
+					buildsList = true
+				}
+			}
+			if len(enclosingLoop(b)) > 0 {
+				buildsList = true
+			}
+		})
+		if !buildsList {
+			continue
+		}
 		key := fnName(u)
 		// (a) no iteration over the map
 		for _, a := range ic.mapAccesses(u) {
@@ -570,10 +724,13 @@ func c05Flatten(c *Check, ic *importClosure) {
 			c.Cond(fwd, "FLATTEN-ORDER", key+"|imports visited in source order", p.pos(rc.Pos()),
 				"recursive visit walks the import slice with an index that starts at the front and increases by one", why)
 			// the appended element derives from the looked-up entry, and the loop ranges over that entry's imports
-			var lkp *ssa.Lookup
+			var lkp ssa.Value
 			for _, a := range ic.mapAccesses(u) {
 				if l, ok := a.(*ssa.Lookup); ok {
 					lkp = l
+				}
+				if cl, ok := a.(*ssa.Call); ok && cl.Call.StaticCallee() != nil && ic.accessors[cl.Call.StaticCallee()] {
+					lkp = cl // (entry, found) from the locked accessor
 				}
 			}
 			if lkp != nil {
@@ -780,8 +937,32 @@ func c05Canon(c *Check, ic *importClosure) {
 			switch x := a.(type) {
 			case *ssa.Lookup:
 				k = x.Index
+				if ic.accessors[f] {
+					continue // the key is the accessor's parameter: judged at its call sites
+				}
 			case *ssa.MapUpdate:
 				k = x.Key
+			case *ssa.Call:
+				// a look-up through a locked accessor: the key is the argument that
+				// becomes the accessor's index
+				h := x.Call.StaticCallee()
+				if h == nil || !ic.accessors[h] {
+					continue
+				}
+				for _, ha := range ic.mapAccesses(h) {
+					if lk, ok := ha.(*ssa.Lookup); ok {
+						if prm, ok := unspill(lk.Index).(*ssa.Parameter); ok {
+							for ai, fp := range h.Params {
+								if fp == prm && ai < len(x.Call.Args) {
+									k = x.Call.Args[ai]
+								}
+							}
+						}
+					}
+				}
+				if k == nil {
+					continue
+				}
 			default:
 				continue
 			}
@@ -863,6 +1044,52 @@ func c05Depth(c *Check, ic *importClosure) {
 		})
 	}
 	if nrec == 0 {
+		// the collector comes back to itself through a helper that builds the task
+		// for one child (`g.Go(p.childCollector(ctx, child, …, depth+1))`): the helper
+		// forwards its own parameters, the step is made at the helper's call
+		for _, f := range withClosures(col) {
+			eachCall(f, func(cl ssa.CallInstruction) {
+				h := normFn(p, staticCallee(cl))
+				if h == nil || h == col || fnPkgPath(h) != fnPkgPath(col) {
+					return
+				}
+				// which parameters of h reach col's (max, current) unchanged?
+				hMax, hCur := -1, -1
+				for _, g := range withClosures(h) {
+					eachCall(g, func(c2 ssa.CallInstruction) {
+						if staticCallee(c2) != col {
+							return
+						}
+						a := c2.Common().Args
+						for j := range h.Params {
+							if maxI < len(a) && paramOrFree(a[maxI], h, j) {
+								hMax = j
+							}
+							if curI < len(a) && paramOrFree(a[curI], h, j) {
+								hCur = j
+							}
+						}
+					})
+				}
+				if hMax < 0 || hCur < 0 {
+					return
+				}
+				nrec++
+				args := cl.Common().Args
+				stepOK := false
+				if hCur < len(args) {
+					if b, ok := args[hCur].(*ssa.BinOp); ok && b.Op == token.ADD {
+						if k, ok := constInt(b.Y); ok && k == 1 && paramOrFree(b.X, col, curI) {
+							stepOK = true
+						}
+					}
+				}
+				c.Cond(stepOK, "DEPTH", fnName(f)+"|depth+1 per import level", p.pos(cl.Pos()), "recursive fetch (through "+h.Name()+") passes current depth + 1", "recursive fetch does not pass current depth + 1: the depth limit cuts at the wrong level")
+				c.Cond(hMax < len(args) && paramOrFree(args[hMax], col, maxI), "DEPTH", fnName(f)+"|limit forwarded unchanged", p.pos(cl.Pos()), "limit forwarded unchanged", "depth limit altered on the way down")
+			})
+		}
+	}
+	if nrec == 0 {
 		c.Undecidedf("DEPTH", fnName(col)+"|recursion", p.pos(col.Pos()), "collector does not call itself")
 	}
 	// cut-off test: current >= max (with max > 0) leads to return nil before any claim
@@ -877,7 +1104,7 @@ func c05Depth(c *Check, ic *importClosure) {
 		if (bin.Op == token.GEQ && isCur(bin.X) && isMax(bin.Y)) || (bin.Op == token.LEQ && isMax(bin.X) && isCur(bin.Y)) {
 			for _, br := range branchesOn(bin) {
 				t := br.TrueSucc
-				if ret, ok := t.Instrs[len(t.Instrs)-1].(*ssa.Return); ok && len(ret.Results) == 1 && isNilConst(ret.Results[0]) {
+				if ret, ok := t.Instrs[len(t.Instrs)-1].(*ssa.Return); ok && len(ret.Results) == 1 && isNilConst(retVal(ret, 0)) {
 					cut = true
 				}
 			}
@@ -1068,6 +1295,9 @@ func sourceTextIntact(c *Check, rule string) {
 			return false
 		}
 		cl, ok := ex.Tuple.(*ssa.Call)
+		if ok && ic.readCall != nil && ssa.CallInstruction(cl) == ic.readCall {
+			return true
+		}
 		return ok && cl.Call.IsInvoke() && cl.Call.Method.Name() == "ReadHashBranch"
 	}
 	n := 0
@@ -1327,6 +1557,19 @@ func c05PublicationViaHelper(c *Check, ic *importClosure, claimer *ssa.Function,
 		c.Undecidedf("PUBLICATION", fnName(col), p.pos(claimCall.Pos()), "cannot find the entry and the flag returned by %s", fnName(claimer))
 		return
 	}
+	// `fi, has := get(k); if !has { fi, has = putIfAbsent(k, fresh) }`: what the
+	// collector goes on with are the phis that merge the two calls
+	phiOf := func(v ssa.Value) ssa.Value {
+		if v.Referrers() != nil {
+			for _, r := range *v.Referrers() {
+				if ph, ok := r.(*ssa.Phi); ok {
+					return ph
+				}
+			}
+		}
+		return v
+	}
+	entry, flag = phiOf(entry), phiOf(flag)
 	// blocks of the already-claimed branch
 	claimed := map[*ssa.BasicBlock]bool{}
 	for _, br := range branchesOn(flag) {
